@@ -25,6 +25,9 @@ THEOREMS = [
     "C16.bulk_key_not_closed",
     "C16.bulk_full_false",
     "C16.bulk_key_collision",
+    "C16.bulk_key_collision_lost",
+    "C16.models_with_base_are_discovered",
+    "C16.bulk_src_closed",
     "C16.bulk_ops_exact",
     "C16.bulk_params_declared",
     "C16.bulk_roundtrip",
@@ -45,8 +48,16 @@ BODYISH = ["Body", "BodyPart", "AntiBody", "RequestBody", "BodyBodyX", "Bod", "F
 ODD = ["Foo2", "Item2Go", "Foo_Bar", "foo", "HTTPServer", "ID", "fooBar", "Config_tbl", "A1b2"]
 COLTYPES = ["Integer", "String", "Boolean", "Float", "JSON"]
 COLNAMES = ["id", "name", "dataset_name", "created", "value", "flag", "payload", "K", "owner_id", "slug", "datasetName", "ID"]
+# attribute names a column may legally have: leading / trailing underscores, dunder-like, digits, upper case, non-ASCII letters,
+# names that are also Python / SQLAlchemy names
+COLNAMES_ODD = ["_id", "__secret", "_", "id_", "__tablename", "ID2", "x1", "n\u00famero", "gr\u00f6\u00dfe", "\u540d\u524d", "type", "metadata", "class_", "Column", "Base", "_Private9"]
+BASES = [["Base"], ["Base"], ["Base"], ["AuditMixin", "Base"], ["Base", "AuditMixin"], ["mixins.Audit", "Base"], ["Base", "mixins.Audit"], ["TimestampMixin", "AuditMixin", "Base"],
+         ["mixins.Audit", "AuditMixin", "Base"]]
 COLDOCS = ["the id", "name of thing", "primary identifier", "a value", "some `code` text", "flag: yes/no", "x"]
-PRELUDE = "from sqlalchemy import JSON, Boolean, Column, Float, Integer, String\nfrom sqlalchemy.orm import declarative_base\n\nBase = declarative_base()\n\n\n"
+PRELUDE = ("import mixins\nfrom sqlalchemy import JSON, Boolean, Column, Float, Integer, MetaData, String, Table\nfrom sqlalchemy.orm import declarative_base\n\n"
+           "Base = declarative_base()\nmetadata = MetaData()\n\n\n")
+MIXIN_SRC = 'class %s(object):\n    """Helper mixed into models (not a model itself)"""\n\n    def touch(self):\n        """:return: nothing"""\n        return None\n'
+BYSTANDER_SRC = 'class Helper(object):\n    """Plain class next to the models (not a model)"""\n\n    limit = 10\n\n\nclass Settings:\n    """No bases at all"""\n\n    debug = False\n' 
 
 
 # ----------------------------------------------------------------------------------------------------------------
@@ -204,7 +215,7 @@ def shuffled(r, crud: str) -> str:
     return "".join(r.sample(list(crud), len(crud))) if r.random() < 0.3 else crud
 
 
-def gen_model(r, used: set, undocumented_ok=True) -> dict:
+def gen_model(r, used: set, undocumented_ok=True, forms=("class",)) -> dict:
     pool = r.choice([SINGLE, SINGLE, MULTI, MULTI, BODYISH, ODD])
     cls = r.choice(pool)
     while cls in used:
@@ -212,9 +223,18 @@ def gen_model(r, used: set, undocumented_ok=True) -> dict:
     used.add(cls)
     table, tkind = gen_table(r, cls)
     ncols = r.randint(1, 6)
-    names = r.sample(COLNAMES, ncols)
-    pk_kind = r.choice(["explicit-first", "explicit-later", "inferred", "inferred"]) if ncols > 1 else r.choice(["explicit-first", "inferred"])
-    pk_idx = {"explicit-first": 0, "explicit-later": r.randrange(1, ncols) if ncols > 1 else 0}.get(pk_kind)
+    odd_cols = r.random() < 0.45
+    names = r.sample(COLNAMES + COLNAMES_ODD * 2 if odd_cols else COLNAMES, ncols + 2)
+    names = list(dict.fromkeys(names))[:ncols]
+    ncols = len(names)
+    kinds = ["explicit-first", "inferred"] if ncols == 1 else ["explicit-first", "explicit-last", "inferred", "inferred"] if ncols == 2 else [
+        "explicit-first", "explicit-middle", "explicit-last", "inferred", "inferred"]
+    pk_kind = r.choice(kinds)
+    pk_idx = {"explicit-first": 0, "explicit-middle": r.randrange(1, max(2, ncols - 1)), "explicit-last": ncols - 1}.get(pk_kind)
+    if odd_cols and pk_idx is not None and r.random() < 0.6:  # the PK itself is one of the unusual names
+        odd = r.choice(COLNAMES_ODD)
+        if odd not in names:
+            names[pk_idx] = odd
     undocumented = undocumented_ok and r.random() < 0.25
     cols = []
     for i, c in enumerate(names):
@@ -223,13 +243,28 @@ def gen_model(r, used: set, undocumented_ok=True) -> dict:
             doc = None
         cols.append([c, r.choice(COLTYPES), doc, i == pk_idx, r.choice([None, None, True, False])])
     prefix = r.choice(PREFIXES)
+    form = r.choice(forms)
     return {"cls": cls, "table": table, "tkind": tkind, "doc": r.choice(["A model.", "Stores %s rows" % cls, "The `%s` entity.\n\nMore text." % cls]),
-            "cols": cols, "pk_kind": pk_kind, "crud": shuffled(r, r.choice(CRUDS)),
+            "cols": cols, "pk_kind": pk_kind, "crud": shuffled(r, r.choice(CRUDS)), "form": form, "bases": r.choice(BASES) if form == "class" else [],
             "route": "%s/%s" % (prefix, r.choice([snake(cls), cls.lower(), snake(cls) + "s"])), "prefix": prefix}
 
 
 def model_src(m: dict) -> str:
-    out = ["class %s(Base):" % m["cls"], '    """', *("    " + line if line else "" for line in m["doc"].split("\n")), '    """', "", "    __tablename__ = %r" % m["table"], ""]
+    if m.get("form", "class") == "table":
+        out = ["%s = Table(" % m["table"], "    %r," % m["table"], "    metadata,"]
+        for c, t, doc, pk, nullable in m["cols"]:
+            args = [repr(c), t]
+            if doc is not None:
+                args.append("comment=%r" % doc)
+            if pk:
+                args.append("primary_key=True")
+            if nullable is not None:
+                args.append("nullable=%r" % nullable)
+            out.append("    Column(%s)," % ", ".join(args))
+        out += ["    comment=%r," % m["doc"], ")"]
+        return "\n".join(out) + "\n"
+    out = ["class %s(%s):" % (m["cls"], ", ".join(m.get("bases") or ["Base"])), '    """', *("    " + line if line else "" for line in m["doc"].split("\n")), '    """', "",
+           "    __tablename__ = %r" % m["table"], ""]
     for c, t, doc, pk, nullable in m["cols"]:
         args = [t]
         if doc is not None:
@@ -242,13 +277,73 @@ def model_src(m: dict) -> str:
     return "\n".join(out) + "\n"
 
 
+def document_src(case: dict) -> str:
+    """the models file: prelude, the helper classes the models mention, bystanders, then the models in order"""
+    mixins = sorted({b for m in case["models"] for b in m.get("bases", []) if b != "Base" and "." not in b})
+    parts = [MIXIN_SRC % b for b in mixins]
+    if case.get("bystanders"):
+        parts.append(BYSTANDER_SRC)
+    parts += [model_src(m) for m in case["models"]]
+    return PRELUDE + "\n\n".join(parts)
+
+
+def read_source(src: str) -> list:
+    """INDEPENDENT reading of a models file with the stdlib `ast` only (no cdd): every ClassDef / Call node in `ast.walk` order with
+    what `infer` may look at, and for the SQLAlchemy models (class with a plain `Base` base / `Table(...)` call) their columns in order."""
+    import ast
+
+    def column_call(v):
+        return isinstance(v, ast.Call) and isinstance(v.func, ast.Name) and v.func.id == "Column"
+
+    def is_pk(call):
+        return any(k.arg == "primary_key" and isinstance(k.value, ast.Constant) and k.value.value is True for k in call.keywords)
+
+    out = []
+    for node in ast.walk(ast.parse(src)):
+        if isinstance(node, ast.ClassDef):
+            d = {"kind": "class", "name": node.name, "bases": [b.id for b in node.bases if isinstance(b, ast.Name)], "is_model": any(isinstance(b, ast.Name) and b.id == "Base" for b in node.bases)}
+            cols, tablename = [], None
+            for st in node.body:
+                if isinstance(st, ast.Assign) and len(st.targets) == 1 and isinstance(st.targets[0], ast.Name):
+                    if st.targets[0].id == "__tablename__" and isinstance(st.value, ast.Constant):
+                        tablename = st.value.value
+                    elif column_call(st.value):
+                        cols.append([st.targets[0].id, is_pk(st.value)])
+            d.update(cols=cols, table=tablename)
+            out.append(d)
+        elif isinstance(node, ast.Call):
+            d = {"kind": "call", "nargs": len(node.args), "arg1": node.args[1].id if len(node.args) > 1 and isinstance(node.args[1], ast.Name) else None,
+                 "is_model": isinstance(node.func, ast.Name) and node.func.id == "Table"}
+            if d["is_model"]:
+                d["table"] = node.args[0].value
+                d["name"] = d["table"]
+                d["cols"] = [[a.args[0].value, is_pk(a)] for a in node.args[2:] if column_call(a)]
+            out.append(d)
+    return out
+
+
+def expected_pk(cols: list):
+    """explicitly declared primary key, if any (else None: the generator may infer one)"""
+    return next((c for c, pk in cols if pk), None)
+
+
+def norm_case(case: dict) -> dict:
+    """defaults for hand-written / older replay cases"""
+    case.setdefault("bystanders", False)
+    for m in case["models"]:
+        m.setdefault("form", "class")
+        m.setdefault("bases", ["Base"] if m["form"] == "class" else [])
+    return case
+
+
 def gen_case(r, k: int) -> dict:
     n = r.choice([1, 1, 2, 2, 3])
     used: set = set()
     models = []
     routes = set()
     while len(models) < n:
-        m = gen_model(r, used)
+        # the first model is class-form (gen_routes only reads classes); later ones may be Table-form (schemas only in the bulk pipeline)
+        m = gen_model(r, used, forms=("class",) if not models else ("class", "class", "class", "table"))
         if m["route"] in routes or any(m["route"].startswith(x + "/") or x.startswith(m["route"] + "/") for x in routes):
             used.discard(m["cls"])
             continue
@@ -262,7 +357,7 @@ def gen_case(r, k: int) -> dict:
     app = r.choice(APPS)
     layout = r.choice(["separate", "separate", "shared"]) if n > 1 else "separate"
     other_app = r.random() < 0.2  # a routes file of another app that must be ignored
-    return {"k": k, "app": app, "layout": layout, "models": models, "other_app": other_app}
+    return {"k": k, "app": app, "layout": layout, "models": models, "other_app": other_app, "bystanders": r.random() < 0.3}
 
 
 # ----------------------------------------------------------------------------------------------------------------
@@ -276,7 +371,8 @@ def quiet():
 
 def impl_case(case: dict) -> dict:
     """Run the real pipeline for one generated document: sqlalchemy parse → json_schema, gen_routes, upsert_routes,
-    openapi_bulk, and emit.openapi on the same (name, schema, route, pk, crud) tuples."""
+    openapi_bulk, and emit.openapi on the same (name, schema, route, pk, crud) tuples.
+    `nodes`: every ClassDef / Call of the models file (independent stdlib reading) with what the real parser makes of it."""
     import ast
 
     import cdd.class_.parse  # noqa: F401  (import order)
@@ -290,40 +386,64 @@ def impl_case(case: dict) -> dict:
     d = tempfile.mkdtemp(prefix="c16_")
     try:
         with quiet():
+            src = document_src(case)
             mp = os.path.join(d, "models.py")
             with open(mp, "w") as f:
-                f.write(PRELUDE + "\n\n".join(model_src(m) for m in case["models"]))
+                f.write(src)
             open(os.path.join(d, "__init__.py"), "w").close()
+            # ---- every ClassDef / Call node, in ast.walk order; the real parser is run on a FRESH tree per node (it mutates the tree)
+            nodes = read_source(src)
+            for idx, nd in enumerate(nodes):
+                fresh = [x for x in ast.walk(ast.parse(src)) if isinstance(x, (ast.ClassDef, ast.Call))][idx]
+                try:
+                    ir = cdd.sqlalchemy.parse.sqlalchemy(fresh) if nd["kind"] == "class" else cdd.sqlalchemy.parse.sqlalchemy_table(fresh)
+                    params = [[k, v.get("doc")] for k, v in ir["params"].items()]  # before json_schema(): it consumes the docs
+                    nd["parsed"] = {"name": ir["name"], "params": params, "schema": enc(cdd.json_schema.emit.json_schema(ir))}
+                except Exception as e:  # noqa
+                    nd["parsed"] = None
+                    if nd["is_model"]:
+                        nd["parse_error"] = core.exc_name(e)
+            out["nodes"] = nodes
             files: list[list] = []  # per routes file: the batches (model indices) written to it, in order
             paths: list[str] = []
             for i, m in enumerate(case["models"]):
-                node = next(n for n in ast.parse(model_src(m)).body if isinstance(n, ast.ClassDef))
-                ir = cdd.sqlalchemy.parse.sqlalchemy(ast.Module(body=[node], stmt=None, type_ignores=[]))
-                info = {"table": ir["name"], "params": [[k, v.get("doc")] for k, v in ir["params"].items()],
-                        "schema": enc(cdd.json_schema.emit.json_schema(ir))}
+                nd = next(x for x in nodes if x["is_model"] and x["name"] == (m["cls"] if m["form"] == "class" else m["table"]))
+                info = {"form": m["form"], "src_cols": nd["cols"], "src_table": nd["table"]}
+                if nd["parsed"] is None:
+                    info["parse_error"] = nd.get("parse_error")
+                    out["models"].append(info)
+                    continue
+                info.update(table=nd["parsed"]["name"], params=nd["parsed"]["params"], schema=nd["parsed"]["schema"])
+                if m["form"] == "table":  # gen_routes reads classes only: Table-form models take part in emit.openapi and in the schemas of openapi_bulk
+                    info["pk"] = expected_pk(nd["cols"]) or nd["cols"][0][0]
+                    info["no_routes"] = True
+                    out["models"].append(info)
+                    continue
+                rp = os.path.join(d, "routes.py" if case["layout"] == "shared" else "routes_%d.py" % i)
                 try:
                     routes, pk = gen_routes(case["app"], mp, m["cls"], m["crud"], m["route"])
+                    upsert_routes(case["app"], routes, rp, m["route"], pk)
                     info["pk"] = pk
                 except Exception as e:  # noqa
                     info["pk_error"] = core.exc_name(e)
                     out["models"].append(info)
                     continue
-                rp = os.path.join(d, "routes.py" if case["layout"] == "shared" else "routes_%d.py" % i)
                 if rp not in paths:
                     paths.append(rp)
                     files.append([])
-                fi = paths.index(rp)
-                upsert_routes(case["app"], routes, rp, m["route"], pk)
-                files[fi].append({"model": i, "app": case["app"]})
+                files[paths.index(rp)].append({"model": i, "app": case["app"]})
                 out["models"].append(info)
             if case.get("other_app"):
                 m = case["models"][0]
-                if "pk" in out["models"][0]:
+                if "pk" in out["models"][0] and not out["models"][0].get("no_routes"):
                     rp = os.path.join(d, "routes_other.py")
-                    routes, pk = gen_routes("other_app", mp, m["cls"], "CRD", "/other" + m["route"])
-                    upsert_routes("other_app", routes, rp, "/other" + m["route"], pk)
-                    paths.append(rp)
-                    files.append([{"model": 0, "app": "other_app", "route": "/other" + m["route"], "crud": "CRD"}])
+                    try:
+                        routes, pk = gen_routes("other_app", mp, m["cls"], "CRD", "/other" + m["route"])
+                        upsert_routes("other_app", routes, rp, "/other" + m["route"], pk)
+                        paths.append(rp)
+                        files.append([{"model": 0, "app": "other_app", "route": "/other" + m["route"], "crud": "CRD"}])
+                    except Exception:  # noqa  (the same call already succeeded for the checked app; nothing to add)
+                        pass
             out["files"] = files
             ok = [(m, info) for m, info in zip(case["models"], out["models"]) if "pk" in info]
             try:
@@ -459,8 +579,12 @@ def impl_raw(case: dict) -> dict:
             tables = []
             for m in case["models"]:
                 node = next(n for n in ast.parse(model_src(m)).body if isinstance(n, ast.ClassDef))
-                ir = cdd.sqlalchemy.parse.sqlalchemy(node)
-                tables.append({"name": ir["name"], "schema": enc(cdd.json_schema.emit.json_schema(ir))})
+                try:
+                    ir = cdd.sqlalchemy.parse.sqlalchemy(node)
+                    tables.append({"name": ir["name"], "schema": enc(cdd.json_schema.emit.json_schema(ir))})
+                except Exception as e:  # noqa  (reading the model is not this stream's subject: skipped here, reported by the generated-documents stream)
+                    out["bottle_error"] = "model-parse:" + core.exc_name(e)
+                    return out
             src = "rest_api = other = None\n\n" + "\n\n".join(
                 "@%s.%s(%r)\ndef f%d(%s):\n    %s\n    return None\n" % (fn["app"], fn["method"], fn["path"], i, "", (fn["doc"] or "pass").replace("\n", "\n    "))
                 for i, fn in enumerate(case["fns"]))
@@ -483,23 +607,39 @@ def impl_raw(case: dict) -> dict:
 
 
 # ----------------------------------------------------------------------------------------------------------------
-def entries_of(case, res, which=None):
-    """(name, route, id, crud) of the models whose routes could be generated"""
+def entries_of(case, res, routed_only=False):
+    """(name, route, id, crud) of the models that reached the pipelines; `id` is the primary key the SOURCE declares (independent
+    reading) when it declares one, `id_used` the one the real pipeline chose"""
     out = []
     for i, (m, info) in enumerate(zip(case["models"], res["models"])):
-        if "pk" in info and (which is None or i in which):
-            out.append({"name": m["cls"], "route": m["route"], "id": info["pk"], "crud": m["crud"], "model": info["schema"], "i": i})
+        if "pk" in info and not (routed_only and info.get("no_routes")):
+            out.append({"name": m["cls"], "route": m["route"], "id": expected_pk(info["src_cols"]) or info["pk"], "id_used": info["pk"], "crud": m["crud"],
+                        "model": info["schema"], "i": i})
     return out
+
+
+def props_of(schema) -> list:
+    return list(schema.get("properties", {})) if isinstance(schema, dict) else None
 
 
 def check_case(chk, case, res, model_bulk, model_emit, stats):
     replay = {"fn": "case", "case": case}
     models = case["models"]
     for m, info in zip(models, res["models"]):
+        cols = [c for c, _ in info["src_cols"]]
+        if "parse_error" in info:
+            chk.failure({"region": "sqlalchemy-parse", "kind": info["parse_error"], "form": m["form"]},
+                        "the %s-form model %s cannot be read (%s): no document can describe it" % (m["form"], m["cls"], (info["parse_error"] or "")[7:]), replay)
+            continue
         if "pk_error" in info:
             undocumented = any(c[2] is None for c in m["cols"])
             chk.failure({"region": "gen_routes", "kind": info["pk_error"], "undocumented_column": undocumented},
                         "gen_routes(%s) raises %s: no routes can be generated for the model" % (m["cls"], info["pk_error"][7:]), replay)
+        elif expected_pk(info["src_cols"]) is not None and info["pk"] != expected_pk(info["src_cols"]):
+            chk.failure({"region": "gen_routes", "kind": "pk-is-not-the-declared-primary-key"},
+                        "gen_routes(%s) addresses items by %r, the model declares primary_key=True on %r (columns %s)" % (m["cls"], info["pk"], expected_pk(info["src_cols"]), cols), replay)
+        elif info["pk"] not in cols:
+            chk.failure({"region": "gen_routes", "kind": "pk-is-not-a-column"}, "gen_routes(%s) addresses items by %r, not a column of the model (%s)" % (m["cls"], info["pk"], cols), replay)
     ents = entries_of(case, res)
     # ---- emit.openapi --------------------------------------------------------------------------------------
     if "emit" in res:
@@ -510,6 +650,12 @@ def check_case(chk, case, res, model_bulk, model_emit, stats):
             want = {k: v for k, v in dec(e["model"]).items() if not k.startswith("$")}
             if doc["components"]["schemas"].get(e["name"]) != want:
                 chk.failure({"region": "emit", "kind": "schema-differs"}, "components.schemas[%s] is not the model's schema" % e["name"], replay)
+            # independent reading of the source: one property per declared column, in declaration order
+            cols = [c for c, _ in res["models"][e["i"]]["src_cols"]]
+            got = props_of(doc["components"]["schemas"].get(e["name"]))
+            if got != cols:
+                chk.failure({"region": "emit", "kind": "properties-differ-from-source-columns", "what": "order" if got is not None and sorted(got) == sorted(cols) else "set"},
+                            "components.schemas[%s].properties %s, the source declares the columns %s" % (e["name"], got, cols), replay)
         if model_emit is not None:
             if "doc" not in model_emit or dec(model_emit["doc"]) != doc:
                 stats["dis_emit"] += 1
@@ -524,6 +670,18 @@ def check_case(chk, case, res, model_bulk, model_emit, stats):
     # ---- openapi_bulk --------------------------------------------------------------------------------------
     if "bulk" in res:
         doc = dec(res["bulk"])
+        ents = entries_of(case, res, routed_only=True)
+        # every SQLAlchemy model of the models file (independent reading) is described by a schema of the document
+        src_models = [nd for nd in res["nodes"] if nd["is_model"]]
+        for nd in src_models:
+            cols = [c for c, _ in nd["cols"]]
+            key = title_key(nd["table"]) if isinstance(nd["table"], str) else None
+            shared = [x for x in src_models if x is not nd and isinstance(x["table"], str) and title_key(x["table"]) == key]
+            form = "class" if nd["kind"] == "class" else "table"
+            if not any(props_of(v) == cols for v in doc["components"]["schemas"].values()):
+                chk.failure({"region": "bulk", "kind": "no-schema-with-the-model-columns", "form": form, "key_shared": bool(shared)},
+                            "no schema of the document has the columns %s of the %s-form model %s (schemas: %s)" % (
+                                cols, form, nd["name"], {k: props_of(v) for k, v in doc["components"]["schemas"].items() if k != "ServerError"}), replay)
         for sig, text in oracle(doc, ents):
             sig = dict(sig, region="bulk")
             if sig["kind"] == "dangling-ref":
@@ -557,10 +715,12 @@ def check_case(chk, case, res, model_bulk, model_emit, stats):
                                     "requestBodies[%s] read back from the generated routes differs from emit.openapi: %s vs %s" % (
                                         k, json.dumps(doc["components"]["requestBodies"].get(k))[:250], json.dumps(em["components"]["requestBodies"].get(k))[:250]), replay)
             for m, info in zip(models, res["models"]):
+                if "schema" not in info:
+                    continue
                 # the schema the model's routes point to (when present) must be the schema of that model's table
                 want = {k: v for k, v in dec(info["schema"]).items() if not k.startswith("$")}
                 if m["cls"] in doc["components"]["schemas"] and doc["components"]["schemas"][m["cls"]] != want:
-                    others = [m2["cls"] for m2, i2 in zip(models, res["models"]) if m2 is not m and title_key(i2["table"]) == m["cls"]
+                    others = [m2["cls"] for m2, i2 in zip(models, res["models"]) if m2 is not m and "schema" in i2 and title_key(i2["table"]) == m["cls"]
                               and doc["components"]["schemas"][m["cls"]] == {k: v for k, v in dec(i2["schema"]).items() if not k.startswith("$")}]
                     cause = "key-of-another-table" if others else "other"
                     chk.failure({"region": "bulk", "kind": "schema-differs", "cause": cause},
@@ -583,7 +743,10 @@ def check_case(chk, case, res, model_bulk, model_emit, stats):
 
 
 def bulk_request(case, res):
-    tables = [{"name": info["table"], "schema": info["schema"]} for info in res["models"]]
+    nodes = []
+    for nd in res["nodes"]:
+        tbl = {"name": nd["parsed"]["name"], "schema": nd["parsed"]["schema"]} if nd["parsed"] else None
+        nodes.append({"kind": "class", "bases": nd["bases"], "table": tbl} if nd["kind"] == "class" else {"kind": "call", "nargs": nd["nargs"], "arg1": nd["arg1"], "table": tbl})
     files = []
     for f in res["files"]:
         batches = []
@@ -591,11 +754,11 @@ def bulk_request(case, res):
             m, info = case["models"][b["model"]], res["models"][b["model"]]
             batches.append({"app": b["app"], "name": m["cls"], "route": b.get("route", m["route"]), "id": info["pk"], "crud": b.get("crud", m["crud"])})
         files.append(batches)
-    return {"op": "c16.bulk", "app": case["app"], "tables": tables, "files": files}
+    return {"op": "c16.bulk", "app": case["app"], "nodes": nodes, "files": files}
 
 
 def emit_request(ents):
-    return {"op": "c16.emit", "entries": [{"name": e["name"], "model": e["model"], "route": e["route"], "id": e["id"], "crud": e["crud"]} for e in ents]}
+    return {"op": "c16.emit", "entries": [{"name": e["name"], "model": e["model"], "route": e["route"], "id": e["id_used"], "crud": e["crud"]} for e in ents]}
 
 
 ENT_ALPHABET = ["`", "``", "```", " ", "\n", "a", "Foo", "$ref: ", "ServerError", "\t", "x`y", "\xa0", " ", "\x1c", "'", ":"]
@@ -646,6 +809,8 @@ def raw_doc(r, n):
 def gen_raw_case(r):
     used: set = set()
     models = [gen_model(r, used, undocumented_ok=False) for _ in range(r.randint(1, 2))]
+    for m in models:
+        m["bases"] = ["Base"]  # which classes are models is the subject of the generated-documents stream
     fns = []
     base = r.choice(["/api/x", "/y", "/api/:tenant/x"])
     for _ in range(r.randint(1, 5)):
@@ -664,7 +829,8 @@ def run(chk: core.Check) -> int:
         "yaml.safe_load / json.loads are not modelled: the loader's result for the rewritten text is captured from the real run and handed to the model; `templateLoaded` states it for the three route templates and is exercised on every generated name",
         "the docstring parser and `ast` between a route template and `bottle()` are not modelled: `templatePayload kind name` is compared with bottle(ast.parse(template)) on every generated name",
         "the route functions openapi_bulk sees in a routes file are given by `visibleRoutes` (all upsert batches, in order; the text of the routes file, `to_code` and `ast.parse` are not modelled); tied by comparing the whole bulk document for separate and shared routes files",
-        "sqlalchemy parse → json_schema (the model schema) is input data here (C05/C06); the theorems assume schemas without `$ref`, the oracle checks it on every real document",
+        "sqlalchemy parse → json_schema (the model schema) is input data to the Lean model (C05/C06); the theorems assume schemas without `$ref`; the ORACLE does not trust it: an independent stdlib-`ast` reading of the models file gives every model's columns in order and its declared primary key, and every document's schemas / item paths are compared with that reading",
+        "`infer` (which ClassDef / Call nodes of the models file are models) is ported as `inferNode`/`discover`; the node features (plain-name base ids, positional-argument count, id of the second argument) come from the independent stdlib reading",
         "`resolves` in the theorems is an RFC 6901 pointer walk without ~0/~1 unescaping and without list indices (names are identifiers); the oracle on real documents uses the full walk",
     ]
     chk.assumptions += [
@@ -693,21 +859,54 @@ def run(chk: core.Check) -> int:
     pinned.append({"k": -5, "app": "rest_api", "layout": "separate", "other_app": False, "models": [
         {"cls": "Foo", "table": "foos", "tkind": "other", "doc": "Plural table.", "cols": cols, "pk_kind": "explicit-first", "crud": "CR", "route": "/api/foos", "prefix": "/api"},
         {"cls": "foo", "table": "foo", "tkind": "same", "doc": "Lower-case class.", "cols": [["slug", "String", "the slug", True, None]], "pk_kind": "explicit-first", "crud": "CD", "route": "/foo", "prefix": ""}]})
-    cases = pinned + cases
+    # fixed corners after the round-4 seeded misses: `_id` primary key that is not the first column; mixin before `Base` next to a plain model;
+    # Table-form next to class-form; every unusual column name as primary key in the last position
+    pinned.append({"k": -6, "app": "rest_api", "layout": "separate", "other_app": False, "models": [
+        {"cls": "Document", "table": "document", "tkind": "snake", "doc": "A stored document", "pk_kind": "explicit-middle", "crud": "CRD", "route": "/api/document", "prefix": "/api",
+         "cols": [["title", "String", "title of the document", False, False], ["_id", "String", "identifier of the document", True, None], ["pages", "Integer", "number of pages", False, None]]}]})
+    pinned.append({"k": -7, "app": "rest_api", "layout": "separate", "other_app": False, "bystanders": True, "models": [
+        {"cls": "Customer", "table": "customer", "tkind": "snake", "doc": "A customer", "cols": cols, "pk_kind": "explicit-first", "crud": "CRD", "route": "/api/customer", "prefix": "/api", "bases": ["Base"]},
+        {"cls": "Invoice", "table": "invoice", "tkind": "snake", "doc": "An invoice", "cols": cols, "pk_kind": "explicit-first", "crud": "CRD", "route": "/api/invoice", "prefix": "/api",
+         "bases": ["AuditMixin", "Base"]},
+        {"cls": "Payment", "table": "payment", "tkind": "snake", "doc": "A payment", "cols": cols, "pk_kind": "explicit-first", "crud": "CR", "route": "/api/payment", "prefix": "/api",
+         "bases": ["mixins.Audit", "TimestampMixin", "Base"]}]})
+    pinned.append({"k": -8, "app": "rest_api", "layout": "shared", "other_app": False, "models": [
+        {"cls": "Order", "table": "order", "tkind": "snake", "doc": "An order", "cols": cols, "pk_kind": "explicit-first", "crud": "CRD", "route": "/api/order", "prefix": "/api", "bases": ["Base", "AuditMixin"]},
+        {"cls": "Audit", "table": "audit_tbl", "tkind": "snake_tbl", "doc": "Audit trail", "form": "table", "pk_kind": "explicit-last", "crud": "R", "route": "/api/audit", "prefix": "/api",
+         "cols": [["what", "String", "what happened", False, None], ["_seq", "Integer", "sequence number", True, None]]},
+        {"cls": "Line", "table": "line", "tkind": "snake", "doc": "An order line", "pk_kind": "explicit-last", "crud": "CD", "route": "/api/line", "prefix": "/api",
+         "cols": [["qty", "Integer", "quantity", False, None], ["__secret", "String", None, False, None], ["n\u00famero", "Integer", "line number", True, None]]}]})
+    for i, odd in enumerate(COLNAMES_ODD):
+        pinned.append({"k": -100 - i, "app": "app", "layout": "separate", "other_app": False, "models": [
+            {"cls": "Thing", "table": "thing", "tkind": "snake", "doc": "A thing", "pk_kind": "explicit-last", "crud": "CRD", "route": "/things", "prefix": "",
+             "cols": [["label", "String", "a label", False, None], [odd, "Integer", "the key", True, None]]}]})
+    cases = [norm_case(c) for c in pinned] + cases
     impl = core.pmap(impl_case, cases, chunksize=8)
     reqs = []
     for case, res in zip(cases, impl):
         reqs.append(emit_request(entries_of(case, res)))
         reqs.append(bulk_request(case, res) if "files" in res else {"op": "c16.bulk_key", "table": ""})
     model = core.model_batch(reqs) if have_driver else None
-    cov: dict = {"n_models": {}, "crud": {}, "name_kind": {}, "table_kind": {}, "pk_kind": {}, "layout": {}, "prefix": {}, "key_eq_name": {}, "multi_create_docs": 0, "other_app_docs": 0}
+    cov: dict = {"n_models": {}, "crud": {}, "name_kind": {}, "table_kind": {}, "pk_kind": {}, "layout": {}, "prefix": {}, "key_eq_name": {}, "multi_create_docs": 0, "other_app_docs": 0,
+                 "form": {}, "bases": {}, "pk_column_name": {}, "column_name": {}, "bystander_docs": 0}
     for k, (case, res) in enumerate(zip(cases, impl)):
         ms = case["models"]
         cov["n_models"][len(ms)] = cov["n_models"].get(len(ms), 0) + 1
         cov["layout"][case["layout"]] = cov["layout"].get(case["layout"], 0) + 1
         cov["multi_create_docs"] += sum("C" in m["crud"] for m in ms) >= 2
         cov["other_app_docs"] += bool(case["other_app"])
+        cov["bystander_docs"] += bool(case.get("bystanders"))
         for m in ms:
+            for c in m["cols"]:
+                ck = ("non-ascii" if not c[0].isascii() else "leading-underscore" if c[0].startswith("_") else "trailing-underscore" if c[0].endswith("_") else
+                      "python/sqlalchemy name" if c[0] in ("id", "type", "metadata", "Column", "Base") else "upper/digit" if c[0] != c[0].lower() or any(ch.isdigit() for ch in c[0]) else "plain")
+                cov["column_name"][ck] = cov["column_name"].get(ck, 0) + 1
+                if c[3]:
+                    cov["pk_column_name"][ck] = cov["pk_column_name"].get(ck, 0) + 1
+            cov["form"][m["form"]] = cov["form"].get(m["form"], 0) + 1
+            if m["form"] == "class":
+                bk = "Base" if m["bases"] == ["Base"] else ("mixin-before-Base" if m["bases"][-1] == "Base" else "mixin-after-Base") + ("+dotted" if any("." in b for b in m["bases"]) else "")
+                cov["bases"][bk] = cov["bases"].get(bk, 0) + 1
             nk = "body-ish" if m["cls"] in BODYISH else "multi-word" if m["cls"] in MULTI else "single" if m["cls"] in SINGLE else "odd"
             for key, v in (("crud", "".join(sorted(m["crud"]))), ("name_kind", nk), ("table_kind", m["tkind"]), ("pk_kind", m["pk_kind"]), ("prefix", m["prefix"] or "(none)"),
                            ("key_eq_name", str(title_key(m["table"]) == m["cls"]))):
@@ -723,7 +922,7 @@ def run(chk: core.Check) -> int:
     chk.oblige("correspondence: OpenApi.bulk ∘ genRoutes ∘ visibleRoutes = openapi_bulk ∘ upsert_routes ∘ gen_routes on %d generated documents (whole dict / exception class)" % n,
                "correspondence", have_driver and stats["dis_bulk"] == 0, "%d disagreements" % stats["dis_bulk"])
     # ---- (2) primary key choice ---------------------------------------------------------------------------------
-    pk_cases = [(m["cls"], info) for case, res in zip(cases, impl) for m, info in zip(case["models"], res["models"])]
+    pk_cases = [(m["cls"], info) for case, res in zip(cases, impl) for m, info in zip(case["models"], res["models"]) if "params" in info and not info.get("no_routes")]
     pk_model = core.model_batch([{"op": "c16.pk", "params": info["params"]} for _, info in pk_cases]) if have_driver else []
     dis = 0
     for (cls, info), mres in zip(pk_cases, pk_model):
@@ -834,7 +1033,7 @@ def replay(path: str) -> int:
         return 2
     d = blob["replay"]
     core.repo_on_path()
-    case = d["case"]
+    case = norm_case(d["case"])
     res = impl_case(case)
     chk = core.Check("C16", "quick", 0)
     check_case(chk, case, res, None, None, {"dis_emit": 0, "dis_bulk": 0, "dis_oracle": 0})
